@@ -100,8 +100,12 @@ type runCtx struct {
 	emptied       bool // the container went from non-empty to empty
 	widthEdited   bool // a column edit changed the length
 	invalidations int
-	ended         bool
-	executed      []string
+	// the container the current one was cloned (or un-aligned) from, with its model at that time
+	srcSb    align.SeqBag
+	srcM     *model
+	srcStep  int
+	ended    bool
+	executed []string
 }
 
 func (c *runCtx) al() align.Alignment {
@@ -117,17 +121,6 @@ func newContainer(bag bool, alphabet int) align.SeqBag {
 	}
 	return align.NewAlign(alphabet)
 }
-
-// keys of KNOWN_FINDINGS.txt that this check honours (see FINDINGS.md)
-const (
-	knownFilterEmpties  = "filterlength-empties-alignment"
-	knownTrimNamesIndex = "trimnames-stale-index"
-)
-
-// noSteer is set by TestKnownFindings only, to run the listed reproductions unrestricted
-var noSteer bool
-
-func steerAround(key string) bool { return !noSteer && pbt.Known(key) }
 
 type errWant int
 
@@ -553,11 +546,6 @@ func (c *runCtx) step(op opRec) (executed bool, err error) {
 				out = append(out, r)
 			}
 		}
-		if !m.bag && n > 0 && len(out) == 0 && steerAround(knownFilterEmpties) {
-			// FINDINGS.md 1: FilterLength removing every row of an alignment keeps the old Length()
-			c.o.Exclude(knownFilterEmpties)
-			return false, nil
-		}
 		e := c.sb.FilterLength(min, max)
 		if err = c.checkErr(fmt.Sprintf("FilterLength(%d,%d)", min, max), e, wantNoErr); err != nil {
 			return true, err
@@ -676,7 +664,7 @@ func (c *runCtx) step(op opRec) (executed bool, err error) {
 		m.rows = out
 		return true, nil
 
-	case "rmgapsites", "rmcharsites":
+	case "rmgapsites", "rmcharsites", "rmmajsites":
 		if m.bag {
 			return c.skip(op.Op, "not-an-alignment")
 		}
@@ -690,6 +678,16 @@ func (c *runCtx) step(op opRec) (executed bool, err error) {
 		var first, last int
 		if op.Op == "rmgapsites" {
 			first, last, kept, rm = c.al().RemoveGapSites(cut, ends)
+		} else if op.Op == "rmmajsites" {
+			// the ignore flags (and their "except if only gaps/Ns" clause) belong to C12: they are
+			// passed only when the alignment holds no gap / no N, i.e. when they cannot matter
+			all := ""
+			for _, r := range m.rows {
+				all += r.Seq
+			}
+			ig := op.b(1) && !strings.Contains(all, "-")
+			in := op.b(2) && !strings.ContainsAny(all, "NnXx")
+			first, last, kept, rm = c.al().RemoveMajorityCharacterSites(cut, ends, ig, in)
 		} else {
 			cs.chars = op.s(0)
 			if cs.chars == "" {
@@ -703,11 +701,34 @@ func (c *runCtx) step(op opRec) (executed bool, err error) {
 		var keep []bool
 		var wantFirst, wantLast int
 		ok := false
-		for _, zz := range []bool{true, false} {
+		readings := []int{0, 1}
+		if op.Op == "rmmajsites" && (q < 0 || q > 4) {
+			// documented "otherwise set to 0" (every site removed); the majority variant leaves an out of
+			// range cutoff as it is and removes nothing (C12/FINDINGS.md): both accepted here
+			readings = append(readings, 2)
+		}
+		for _, reading := range readings {
+			zz := reading == 0
 			hit := make([]bool, l)
 			for j := 0; j < l; j++ {
 				cnt, tot := cs.counts(column(m.rows, j))
-				hit[j] = reaches(cnt, tot, q, zz)
+				if op.Op == "rmmajsites" {
+					// occurrences of the most abundant character of the site; whether upper and
+					// lower case count as one character is not documented: zz = together
+					col := column(m.rows, j)
+					if zz {
+						col = asciiUpper(col)
+					}
+					occ := map[byte]int{}
+					cnt, tot = 0, len(col)
+					for k := 0; k < len(col); k++ {
+						occ[col[k]]++
+						if occ[col[k]] > cnt {
+							cnt = occ[col[k]]
+						}
+					}
+				}
+				hit[j] = reaches(cnt, tot, q, zz) && reading != 2
 			}
 			wantFirst, wantLast = 0, 0
 			for wantFirst < l && hit[wantFirst] {
@@ -940,7 +961,8 @@ func (c *runCtx) step(op opRec) (executed bool, err error) {
 		}
 		var cl align.SeqBag
 		var e error
-		if m.bag {
+		asBag := m.bag || op.b(0)
+		if asBag {
 			cl, e = c.sb.CloneSeqBag()
 		} else {
 			cl, e = c.al().Clone()
@@ -954,9 +976,11 @@ func (c *runCtx) step(op opRec) (executed bool, err error) {
 		if e := observe(c.sb, m); e != nil {
 			return true, fmt.Errorf("the original changed while being cloned: %v", e)
 		}
-		if _, isAl := cl.(align.Alignment); isAl == m.bag {
+		if _, isAl := cl.(align.Alignment); isAl == asBag {
 			return true, fmt.Errorf("Clone returns an object of the other kind (alignment=%v)", isAl)
 		}
+		c.srcSb, c.srcM, c.srcStep = c.sb, m.clone(), len(c.executed)
+		m.bag = asBag
 		c.sb = cl
 		m.policy = effectivePolicy(policyOf(op.n(0)))
 		cl.IgnoreIdentical(policyOf(op.n(0)))
@@ -1107,6 +1131,7 @@ func (c *runCtx) step(op opRec) (executed bool, err error) {
 		if _, isAl := un.(align.Alignment); isAl {
 			return true, fmt.Errorf("Unalign returns an alignment")
 		}
+		c.srcSb, c.srcM, c.srcStep = c.sb, m.clone(), len(c.executed)
 		for i, r := range m.rows {
 			m.rows[i].Seq = strings.ReplaceAll(r.Seq, "-", "")
 		}
@@ -1240,11 +1265,6 @@ func (c *runCtx) trimNames(op opRec) (bool, error) {
 			precise = false
 		}
 	}
-	if steerAround(knownTrimNamesIndex) && c.trimNamesHitsStaleIndex(before, given, size, precise) {
-		// FINDINGS.md 2: a new name equal to the current name of a later row loses its index entry
-		c.o.Exclude(knownTrimNamesIndex)
-		return false, nil
-	}
 	e := c.sb.TrimNames(nm, size)
 	if e != nil {
 		if precise && n <= 99 {
@@ -1319,58 +1339,6 @@ func (c *runCtx) trimNames(op opRec) (bool, error) {
 		c.o.Class("trimnames:structural")
 	}
 	return true, nil
-}
-
-// trimNamesHitsStaleIndex: signature of FINDINGS.md 2 - row i receives a new name that is the
-// current name of a later row j which is itself renamed. Exact when the new names are predictable,
-// otherwise conservative (a later row whose current name looks like a generated name).
-func (c *runCtx) trimNamesHitsStaleIndex(rows []row, given map[string]string, size int, precise bool) bool {
-	if precise {
-		used := map[string]bool{}
-		for _, v := range given {
-			used[v] = true
-		}
-		assigned := map[string]string{}
-		newNames := make([]string, len(rows))
-		for i, r := range rows {
-			if v, ok := given[r.Name]; ok {
-				newNames[i] = v
-				continue
-			}
-			if v, ok := assigned[r.Name]; ok {
-				newNames[i] = v
-				continue
-			}
-			prefix := r.Name[:size-2]
-			id := 1
-			for used[fmt.Sprintf("%s%02d", prefix, id)] {
-				id++
-			}
-			newNames[i] = fmt.Sprintf("%s%02d", prefix, id)
-			used[newNames[i]] = true
-			assigned[r.Name] = newNames[i]
-		}
-		for i := range rows {
-			for j := i + 1; j < len(rows); j++ {
-				if newNames[i] == rows[j].Name && newNames[j] != rows[j].Name {
-					return true
-				}
-			}
-		}
-		return false
-	}
-	for j := 1; j < len(rows); j++ {
-		name := rows[j].Name
-		for _, v := range given {
-			if v == name {
-				return true
-			}
-		}
-		if k := len(name); k >= 2 && name[k-1] >= '0' && name[k-1] <= '9' && name[k-2] >= '0' && name[k-2] <= '9' {
-			return true
-		}
-	}
-	return false
 }
 
 func (c *runCtx) trimNamesAuto(op opRec) (bool, error) {
